@@ -81,7 +81,7 @@ def public(case):
 class C01(ProgramProperty):
     id = 'C01'
     technique = 'grammar-based property testing (Hypothesis choice stream -> PyGen programs) with a differential oracle: CPython ast canonical tree'
-    level_text = ('~25k (quick) / 650k (thorough) grammar-generated programs and expressions (every statement, expression, pattern and literal form of the '
+    level_text = ('~80k (quick) / 650k (thorough) grammar-generated programs and expressions (every statement, expression, pattern and literal form of the '
                   'reference grammar incl. soft keywords as names, PEP 695 via CPython 3.12) in module, interactive and expression mode, plus the standard-library '
                   'files on disk in the thorough tier; acceptance and the whole tree are compared with CPython\'s after the two allowed representation changes')
     level_note = 'trusts CPython 3.11.7 ast (3.12.1 for PEP 695) as the reference and the ASDL-generated dumper; texts CPython rejects are discarded and counted'
@@ -90,7 +90,7 @@ class C01(ProgramProperty):
     assumptions = ['identifiers are drawn from characters whose NFKC form and XID status are version-stable (finding C01-F4 covers the rest)']
 
     def budget(self, tier):
-        return 26000 if tier == 'quick' else 650000
+        return 80000 if tier == 'quick' else 650000
 
     def avoid(self):
         return {'C01-F1', 'C01-F2', 'C01-F3', 'C01-F4', 'C01-F22', 'C01-F23', 'C01-F24', 'C07-F1'}
